@@ -18,6 +18,8 @@ impl TraceWriter {
     pub fn emit(&mut self, v: &serde_json::Value) {
         serde_json::to_writer(&mut self.out, v).unwrap();
         self.out.write_all(b"\n").unwrap();
+        // flushed per event: if the code under test takes the process down the trace so far is still judged
+        self.out.flush().unwrap();
         self.n += 1;
     }
 
